@@ -221,6 +221,7 @@ RULES = [
     ("C19-R1", "archive member loop: every member is visited, a member that cannot be opened is skipped alone [shared with C19]", lambda ctx: __import__("c19").r1(ctx)),
     ("C05-R1", "sort keys: the comparison of two buffer keys is a consistent order also for empty values of unreadable entries (an inconsistent one makes the ordered buffer panic) [shared with C05]", lambda ctx: __import__("c05").r1(ctx)),
     ("C01-R5", "the gate in front of every descent refuses a directory only for a reviewed reason (link without the option, seen before): a directory that cannot be stat'ed is tried or counted, never dropped silently [shared with C01]", lambda ctx: __import__("c01").r5(ctx)),
+    ("C01-R7", "no entry is skipped silently: every way out of a round of the entry loop is a reviewed one (an entry whose path cannot be resolved is still listed) [shared with C01]", lambda ctx: __import__("c01").r7(ctx)),
 ]
 
 EXPLANATION = (
